@@ -26,10 +26,10 @@ def model_check(model, workers=8, timeout=1500, cfg="MC_check.cfg"):
     ok = "Model checking completed. No error has been found." in out
     return ok, tlc_stats(out), out, dt
 
-def gen_edges(model, workers=8, timeout=1500):
+def gen_edges(model, workers=8, timeout=3000, cfg="MC_gen.cfg"):
     """every transition of the model with a shortest behaviour reaching it"""
     # one worker: TLC loses PrintT lines when several workers print concurrently
-    rc, out, dt = run_tlc(model + ".tla", "MC_gen.cfg", workers=1, timeout=timeout, heap="8g")
+    rc, out, dt = run_tlc(model + ".tla", cfg, workers=1, timeout=timeout, heap="8g")
     ok = "Model checking completed. No error has been found." in out
     cfgs = parse_tagged(out, "CFG")
     edges = parse_tagged(out, "EDGE")
